@@ -109,3 +109,22 @@ Print Assumptions C01_source_functions_validated.
 (** the Substitution rule stated on the source's own function *)
 Corollary C01_source_substitution_rule : forall p X plug q, mvalid p -> gen_apply_ssubst p X plug = Some q -> mvalid q.
 Proof. intros p X plug q H. rewrite gen_apply_ssubst_eq. exact (substitution_mvalid guards_sound eq_refl eq_refl p X plug q H). Qed.
+
+(** ** the interpreter loop itself by translation: [execute_instructions] and [verify] of the CURRENT rust/src/lib.rs are translated
+       statement by statement into Gen/Exec.v on every run ([gen_step_i], [gen_exec], [gen_verify]: order of reads and pops, which check
+       guards which push, what each phase publishes, what [verify] clears between the phases) and proved equal to the model
+       (ML/GenExec.v); so the soundness theorem holds of the translated source text *)
+From Pi2 Require Import Gen.Exec ML.GenExec.
+Theorem C01_soundness_of_translated_source :
+  forall gamma claimsb proofb st,
+    gen_verify gamma claimsb proofb = Some st ->
+    Forall mvalid (gamma_axioms guards_sound gamma) ->
+    (forall c, In c (declared_claims guards_sound gamma claimsb) -> mvalid c) /\
+    (forall p, In p (proved_terms st) -> mvalid p).
+Proof. intros gamma claimsb proofb st. rewrite gen_verify_eq. exact (C01_soundness gamma claimsb proofb st). Qed.
+Print Assumptions C01_soundness_of_translated_source.
+Theorem C01_source_machine_validated :
+  (forall ph i bs st, gen_step_i ph i bs st = step_i guards_sound ph i bs st) /\
+  (forall ph bs st, gen_exec ph bs st = exec guards_sound ph bs st) /\
+  (forall g c p, gen_verify g c p = verify guards_sound g c p).
+Proof. exact (conj gen_step_i_eq (conj gen_exec_eq gen_verify_eq)). Qed.
